@@ -353,7 +353,7 @@ def run_sequence(rng, n_ops: int, t_symbol):
             rec["queries"] = {q: getattr(term, q, None) for q in QUERIES} if o.kind in SCALAR else {}
             rec["pp"] = print_expression(term)
             rec["code"] = code_str(term)
-            rec["bare"] = print_expression(h) if o.kind == "idx" else rec["pp"]
+            rec["bare"] = print_expression(h) if o.kind in ("idx", "fun") else rec["pp"]
             if o.kind == "qty":
                 # the value rendering of an unnamed quantity, computed on a fresh nameless twin
                 rec["value_pp"] = _value_text(print_expression, h)
@@ -492,8 +492,8 @@ def printing_matrix(objs, seen, t, rng, limit=40):
         if o.kind == "idx":
             b = o.handle
             forms.update({"bare": b, "bare-list": [b, 2], "bare-Tuple": sympy.Tuple(b, 2), "bare-Eq": sympy.Eq(b, b, evaluate=False)})
-        if o.kind == "fun":
-            forms["unapplied"] = o.handle
+        if o.kind == "fun":          # a Function class cannot stand in an Eq (not sympifiable there)
+            forms.update({"unapplied": o.handle, "unapplied-list": [o.handle, 2], "unapplied-Tuple": sympy.Tuple(o.handle, 2)})
         for fname, val in forms.items():
             for ename, fn in eps.items():
                 try:
